@@ -29,6 +29,25 @@ theorem one_version_per_domain_functions (g : PGraph) :
   obtain ⟨fg, _, rfl⟩ := hf
   exact policy_domains_nodup _
 
+/-- With extra requirements given to the graph (`Graph.with_opset`, the default domain possibly spelled
+    `"ai.onnx"`) the imports still list every domain once, never `"ai.onnx"`, the default domain at 14 or
+    above, and nothing below what the nodes and the extra requirements ask for. -/
+theorem with_opset_imports (extra : List Req) (g : PGraph) :
+    ((buildModelWith genFacts extra g).imports.map (·.1)).Nodup ∧
+      "ai.onnx" ∉ (buildModelWith genFacts extra g).imports.map (·.1) ∧
+      (∃ v, lookup "" (buildModelWith genFacts extra g).imports = some v ∧ 14 ≤ v) ∧
+      Dominates (buildModelWith genFacts extra g).imports (reqGraph genFacts g ++ extra) := by
+  refine ⟨(policy_domains_nodup _).1, (policy_domains_nodup _).2, ?_, policy_dominates _⟩
+  have hd : Dominates (opsetsOf genFacts extra g) (reqGraph genFacts g ++ extra) := policy_dominates _
+  have hm : ("", genFacts.minOpset) ∈ reqGraph genFacts g ++ extra := by
+    cases g with | mk nodes => simp [reqGraph]
+  obtain ⟨t, ht, hle⟩ := hd _ hm
+  have ht' : lookup "" (opsetsOf genFacts extra g) = some t := by simpa [fold] using ht
+  have h14 : 14 ≤ genFacts.minOpset := by decide
+  exact ⟨t, ht', Nat.le_trans h14 hle⟩
+
+theorem buildModelWith_nil (g : PGraph) : buildModelWith genFacts [] g = buildModel genFacts g := rfl
+
 /-! ## the import of a domain is the maximum required anywhere -/
 
 /-- `v` is required for domain `d` somewhere in the model: by the result identities of a graph
